@@ -236,6 +236,9 @@ def fanout_isolated(modname, funcname, tasks, nproc=None, task_wall=1800, stop_w
             # whatever the block held before - such defects become visible AND replayable
             cenv = dict(os.environ)
             cenv.setdefault("MALLOC_PERTURB_", "165")
+            # ... and CPython's own small-object allocator is switched off in the workers, so that buffers the extension modules
+            # take from PyMem / PyObject_Malloc (Cython arrays, small scratch matrices) go through glibc as well
+            cenv.setdefault("PYTHONMALLOC", "malloc")
             if env:
                 cenv.update(env)
             p = subprocess.run([sys.executable, "-u", main_py, "--worker", modname, funcname, argf, out],
